@@ -1101,6 +1101,90 @@ def _trn_param_unregistered():
     Solver.configure_optimizers = configure_optimizers
 
 
+def _condx_sqerr_axis1():
+    import torch
+    from torchphysics.problem.conditions.condition import SquaredError
+    SquaredError.forward = lambda self, x: torch.sum(torch.square(x), dim=1)      # the point axis of 3-axis residuals
+
+
+def _condx_branch_skip():
+    from torchphysics.models.deeponet.deeponet import DeepONet
+
+    def _forward_branch(self, function_set, iteration_num=-1, device="cpu"):
+        if iteration_num != function_set.current_iteration_num:                   # branch refreshed only with new functions
+            function_set.current_iteration_num = iteration_num
+            function_set.sample_params(device=device)
+            self.branch(self.branch._discretize_function_set(function_set, device=device))
+    DeepONet._forward_branch = _forward_branch
+
+
+def _condx_resample_always():
+    from torchphysics.models.deeponet.deeponet import DeepONet
+
+    def _forward_branch(self, function_set, iteration_num=-1, device="cpu"):
+        function_set.current_iteration_num = iteration_num
+        function_set.sample_params(device=device)                                 # two conditions of one step see different functions
+        self.branch(self.branch._discretize_function_set(function_set, device=device))
+    DeepONet._forward_branch = _forward_branch
+
+
+def _condx_fs_eval_first_point():
+    import torch
+    from torchphysics.problem.domains.functionsets.functionset import FunctionSet
+    from torchphysics.problem.spaces.points import Points
+
+    def _create_meshgrid(self, points):
+        n_points, n_params = len(points), len(self.param_batch)
+        pr = points.as_tensor.unsqueeze(0).repeat(n_params, 1, 1)
+        qr = self.param_batch.as_tensor.unsqueeze(0).repeat(n_points, 1, 1).transpose(0, 1).flip(0)   # parameters paired in reverse
+        return Points(torch.cat((qr, pr), dim=-1), self.param_batch.space * points.space)
+    FunctionSet._create_meshgrid = _create_meshgrid
+
+
+def _condx_integro_own_points():
+    import torch
+    from torchphysics.problem.conditions.condition import IntegroPINNCondition
+    old = IntegroPINNCondition.forward
+
+    def forward(self, device="cpu", iteration=None):
+        s = self.integral_sampler
+        first = s.sample_points(device=device)
+
+        class One:
+            def sample_points(self_inner, device="cpu"):
+                return first[:1, ].repeat(len(first))                              # every integral point is the first one
+        self.integral_sampler = One()
+        try:
+            return old(self, device=device, iteration=iteration)
+        finally:
+            self.integral_sampler = s
+    IntegroPINNCondition.forward = forward
+
+
+def _don_fs_collection_reversed():
+    from torchphysics.problem.domains.functionsets.functionset import FunctionSetCollection
+    from torchphysics.problem.spaces.points import Points
+
+    def create_function_batch(self, points):
+        output = Points.empty()
+        for function_set in reversed(self.collection):          # batch order differs from the order of the sets
+            output = output | function_set.create_function_batch(points)
+        return output
+    FunctionSetCollection.create_function_batch = create_function_batch
+
+
+def _don_fs_discretize_sorted():
+    import torch
+    from torchphysics.models.deeponet.branchnets import BranchNet
+    from torchphysics.problem.spaces.points import Points
+
+    def _discretize_function_set(self, function_set, device="cpu"):
+        input_points = self.discretization_sampler.sample_points(device=device)
+        out = function_set.create_function_batch(input_points)
+        return Points(torch.flip(out.as_tensor, dims=(1,)), out.space)       # sensors in another order than for tensors / callables
+    BranchNet._discretize_function_set = _discretize_function_set
+
+
 def _trn_sched_every_step():
     import torch
     from torchphysics.solver import Solver
@@ -1187,6 +1271,9 @@ REGISTRY = {
     "trn_no_weight": _trn_no_weight, "trn_iteration_halved": _trn_iter_const, "trn_gradreverse_off": _trn_gradreverse_off,
     "trn_param_unregistered": _trn_param_unregistered, "trn_sched_every_step": _trn_sched_every_step,
     "trn_val_updates_model": _trn_val_updates_model,
+    "condx_sqerr_axis1": _condx_sqerr_axis1, "condx_branch_skip": _condx_branch_skip, "condx_resample_always": _condx_resample_always,
+    "condx_fs_reversed_params": _condx_fs_eval_first_point, "condx_integro_first_point": _condx_integro_own_points,
+    "don_fs_collection_reversed": _don_fs_collection_reversed, "don_fs_sensors_flipped": _don_fs_discretize_sorted,
     "cond_inplace_dict": _cond_inplace_dict, "cond_sqerr_mean": _cond_sqerr_mean, "cond_data_rows_reversed": _cond_data_on_first_call_points,
     "cond_periodic_shared_sides": _cond_periodic_shared_sides, "cond_model_positional": _cond_model_positional,
     "fno_pad_front": _fno_pad_front, "fno_inplace_input": _fno_inplace, "fno_position_bias": _fno_position_bias,
@@ -1227,10 +1314,11 @@ REGISTRY = {
 BY_PROPERTY = {
     "C19": ["ck_weights_only", "ck_final_before_last_update", "ck_minloss_stale", "ck_momentum_reset"],
     "C07": ["trn_no_weight", "trn_iteration_halved", "trn_gradreverse_off", "trn_param_unregistered", "trn_sched_every_step", "trn_val_updates_model"],
-    "C04": ["cond_sqerr_mean", "cond_data_rows_reversed", "cond_periodic_shared_sides", "cond_model_positional"],
-    "C14": ["cond_inplace_dict", "cond_periodic_shared_sides"],
+    "C04": ["cond_sqerr_mean", "cond_data_rows_reversed", "cond_periodic_shared_sides", "cond_model_positional",
+            "condx_sqerr_axis1", "condx_fs_reversed_params", "condx_integro_first_point"],
+    "C14": ["cond_inplace_dict", "cond_periodic_shared_sides", "condx_branch_skip", "condx_resample_always"],
     "C20": ["fno_pad_front", "fno_inplace_input", "fno_position_bias", "fno_norm_one_side"],
-    "C09": ["don_contract_reversed", "don_grad_weight_first_copy", "don_branch_cache_by_shape"],
+    "C09": ["don_contract_reversed", "don_grad_weight_first_copy", "don_branch_cache_by_shape", "don_fs_collection_reversed", "don_fs_sensors_flipped"],
     "C08": ["mdl_fcn_noreorder", "mdl_parallel_positional", "mdl_qres_batch_norm", "mdl_sequential_flip", "mdl_missing_var_zero"],
     "C03": ["do_div_offset", "do_lap_first_only", "do_jac_transposed", "do_rot_sign", "do_grad_sorted_vars"],
     "C11": ["law_circle_nosqrt", "law_par_bd_equal_sides", "law_union_equal_weights", "law_gauss_std", "law_lhs_spill", "law_grid_squeezed"],
